@@ -2,7 +2,7 @@
    definition (a golden of SV.Gen or a regenerated copy under SVB) on concrete inputs and compares the result with
    what the real Go function returned.  No reference to the generated files here: the case files import them. *)
 From Coq Require Import ZArith List String Bool.
-From SV Require Import Base.Corr Gen.GoInt Gen.DecTypes.
+From SV Require Import Base.Corr Gen.GoInt Gen.DecTypes Gen.DecTypes2.
 Import ListNotations.
 Open Scope Z_scope.
 
@@ -45,3 +45,41 @@ Definition rr_ok (step : Z -> Z -> Z * Z * gerr) (ns rets : list Z) : bool := li
 Definition retryable_even (e : gerr) : bool := match e with EOther n => Z.even n | _ => false end.
 Definition retry_on_error_ok (r : list gerr * gerr) (script : list gerr) (err : gerr) (calls : Z) : bool :=
   gerr_eqb (snd r) err && Z.eqb (zlen script - zlen (fst r)) (Z.min calls (zlen script)).
+
+(* ---------- second wave ---------- *)
+(* topicProducer.partitionMessage = partition_source inside the breaker, then partition_pick *)
+Definition partition_message_run
+    (src : list Z -> gerr -> bool -> bool -> bool -> list Z -> gerr -> list Z -> gerr -> list Z * gerr * exit gerr)
+    (pick : gerr -> Z -> list Z -> Z -> gerr -> gerr * Z * exit gerr)
+    (is_dyn msg_req req : bool) (all : list Z) (all_err : gerr) (wr : list Z) (wr_err : gerr)
+    (choice : Z) (choice_err : gerr) (p0 : Z) : gerr * Z :=
+  let '(parts, err, _) := src [] ENil is_dyn msg_req req all all_err wr wr_err in
+  if negb (gerr_eqb err ENil) then (err, p0)
+  else let '(_, p, ex) := pick err p0 parts choice choice_err in
+       match ex with ExReturn e => (e, p) | _ => (ENil, p) end.
+Definition gerr_z_eqb (a b : gerr * Z) : bool := gerr_eqb (fst a) (fst b) && Z.eqb (snd a) (snd b).
+
+Definition hash_action_eqb (a b : hash_action) : bool :=
+  match a, b with HA_reset, HA_reset => true | HA_write, HA_write => true | _, _ => false end.
+Definition hash_calls_ok (r : list hash_action * Z * gerr) (calls : list hash_action) (p : Z) (e : gerr) : bool :=
+  let '(a, p', e') := r in list_eqb hash_action_eqb a calls && Z.eqb p p' && gerr_eqb e e'.
+
+(* sequence numbers: the returned pair and the value of every listed (topic, partition) afterwards *)
+Fixpoint seq_entries_ok (m : seqmap) (format : string) (l : list (string * Z * Z)) : bool :=
+  match l with
+  | [] => true
+  | (t, p, v) :: r => Z.eqb (seqmap_get m (seq_key format t p)) v && seq_entries_ok m format r
+  end.
+Definition seq_get_ok (r : seqmap * Z * Z) (format : string) (s e : Z) (after : list (string * Z * Z)) : bool :=
+  let '(m, s', e') := r in Z.eqb s s' && Z.eqb e e' && seq_entries_ok m format after.
+Definition seq_bump_ok (r : Z * seqmap) (format : string) (e : Z) (after : list (string * Z * Z)) : bool :=
+  Z.eqb (fst r) e && seq_entries_ok (snd r) format after.
+
+Definition bp_is_new_buffer (a : bp_action) : bool := match a with BP_new_buffer => true | _ => false end.
+Definition roll_over_ok (r : option unit * bool * list bp_action) (timer_nil fired new_buffer : bool) : bool :=
+  let '(t, f, a) := r in Bool.eqb (negb (is_some t)) timer_nil && Bool.eqb f fired && Bool.eqb (existsb bp_is_new_buffer a) new_buffer.
+
+Definition add_block_ok (a : list ab_action) (outer inner : bool) (o ts : Z) (m : string) : bool :=
+  Bool.eqb (existsb (fun x => match x with AB_make_blocks => true | _ => false end) a) outer &&
+  Bool.eqb (existsb (fun x => match x with AB_make_topic => true | _ => false end) a) inner &&
+  existsb (fun x => match x with AB_set_block (o', ts', m') => Z.eqb o o' && Z.eqb ts ts' && String.eqb m m' | _ => false end) a.
